@@ -472,11 +472,6 @@ Proof.
     + apply IH. tauto.
 Qed.
 
-Lemma ar_fail_cases s :
-  ar_fail s = s \/
-  (par s = true /\ ar_fail s = set_opn (set_ping_dl s None) (match opn s with Some OPingWait => Some (OWoken false) | o => o end)).
-Proof. unfold ar_fail. destruct (par s); [right; split; reflexivity | left; reflexivity]. Qed.
-
 Lemma step_inv s l s' e : Inv s -> step s l = Some (s', e) -> Inv s'.
 Proof.
   intros I H.
@@ -485,7 +480,7 @@ Proof.
   pose proof (m_wokenf _ I) as I7; pose proof (m_pre _ I) as I8; pose proof (m_dl _ I) as I9; pose proof (m_lp _ I) as I10;
   pose proof (m_sleep _ I) as I11; pose proof (m_open_pl _ I) as I12. clear I.
   destruct s as [nw ch op tm sn ex q sd rc pd pa dl pls lw lpg]; cbn in *.
-  destruct l; cbn in H; unfold shutdown, send_ping, ar_fail, tick_ok in H; cbn in H; brk.
+  destruct l; cbn in H; unfold shutdown, send_ping, ar_fail, wake_fail, tick_ok in H; cbn in H; brk.
   all: constructor; cbn; intros; fin.
   all: unfold mem_z in *.
   all: try (apply remove_z_nodup; assumption).
@@ -497,6 +492,15 @@ Proof.
   all: subst; rewrite ?Z.eqb_refl; cbn; try reflexivity; try assumption.
   all: try (apply orb_true_iff; right); auto.
   all: try (apply I3; assumption); try (apply I2; assumption).
+Qed.
+
+Lemma run_inv ls : forall s s' e, Inv s -> run s ls = Some (s', e) -> Inv s'.
+Proof.
+  induction ls as [|l ls IH]; intros s s' e I H; cbn in H.
+  - inversion H; subst. assumption.
+  - destruct (step s l) as [[s1 e1]|] eqn:S; [|discriminate].
+    destruct (run s1 ls) as [[s2 e2]|] eqn:R; [|discriminate]. inversion H; subst.
+    eapply IH; [|exact R]. eapply step_inv; eassumption.
 Qed.
 
 End MuxP.
